@@ -256,6 +256,7 @@ pub fn run_one(tr: &RunTrace, opts: &RunOpts) -> RunReport {
     c.insert("ctor_illformed_args", ld(&st.ill_formed));
     c.insert("mutations", ld(&st.mutations));
     c.insert("clone_from_calls", ld(&st.clone_froms));
+    c.insert("same_size_churns_after_rewrap", ld(&st.churns));
     c.insert("reads", ld(&st.reads));
     c.insert("repeats_same_thread", ld(&st.repeats));
     c.insert("refs_fresh_thread", ld(&st.refs_thread));
